@@ -1,5 +1,5 @@
 //! unit: u07h
-//! properties: C07 C05 C10 C02 C06
+//! properties: C07 C05 C10 C02 C06 C08
 //! note: also run for C06: the code it constrains lies inside mechanisms those properties name (a change made there for their sake must meet these clauses too)
 //! note: going on chain with our own commitment (ChannelMonitorImpl::generate_claimable_outpoints_and_watch_outputs, slices): the claim for the funding output is built from the current holder commitment on the funding outpoint; the monitor is marked as having signed its commitment (so that no further channel update is accepted) BEFORE any early return, also when nothing is broadcast because a manually-broadcast funding transaction has not been seen; the force-close event names this channel and its funding outpoint; HTLC claims are added at once only for channels without anchors or zero-fee commitments; and a newly learned preimage claims, on a confirmed counterparty commitment, exactly the offered HTLC outputs with that payment hash, each on its own output index with its own expiry as the claim's locktime (get_counterparty_output_claims_for_preimage, closure body)
 //! trusted: R15 (deep slices): generate_claimable_outpoints_and_watch_outputs: the statements from the construction of the funding claim to the manual-broadcast early return (verbatim; the monitor is a skeleton with the fields they touch; HolderFundingOutput::build / PackageTemplate::build_package are recorders of their arguments), and the anchors test in front of the HTLC claims; get_counterparty_output_claims_for_preimage: the body of the filter_map closure verbatim as a function of one HTLC (CounterpartyOfferedHTLCOutput::build records its arguments)
@@ -131,6 +131,38 @@ impl MonP {
 //@with
     if per_commitment_points.0 + 1 == commitment_number {
 //@end
+}
+// ---- new blocks (block_confirmed, head): the monitor goes on chain by itself exactly when an HTLC is about to expire (should_broadcast_holder_commitment_txn: proved in u02 / u08), once, naming that HTLC as the reason, and never for a manually broadcast channel whose funding has not been seen ----
+pub mod going_on_chain {
+use vstd::prelude::*;
+#[derive(Clone, Copy)] pub struct PaymentHash(pub u64);
+pub enum ClosureReason { HTLCsTimedOut { payment_hash: Option<PaymentHash> }, Other }
+pub struct Pkg { pub id: u64 }
+pub struct Outs { pub id: u64 }
+pub struct LoggerStub {}
+pub struct MonB { pub is_manual_broadcast: bool, pub funding_seen_onchain: bool, pub expiring: Option<PaymentHash>, pub calls: Ghost<Seq<(Option<ClosureReason>, bool)>>, pub made: Ghost<(Seq<Pkg>, Seq<Outs>)> }
+impl MonB {
+    #[verifier::external_body] pub fn should_broadcast_holder_commitment_txn(&self, logger: &LoggerStub) -> (r: Option<PaymentHash>) ensures r == self.expiring { unimplemented!() }
+    #[verifier::external_body] pub fn generate_claimable_outpoints_and_watch_outputs(&mut self, reason: Option<ClosureReason>, is_htlc_timeout: bool) -> (r: (Vec<Pkg>, Vec<Outs>))
+        ensures final(self).calls@ == old(self).calls@.push((reason, is_htlc_timeout)), r.0@ == old(self).made@.0, r.1@ == old(self).made@.1,
+            final(self).is_manual_broadcast == old(self).is_manual_broadcast, final(self).funding_seen_onchain == old(self).funding_seen_onchain, final(self).expiring == old(self).expiring, final(self).made == old(self).made { unimplemented!() }
+//@extract lightning/src/chain/channelmonitor.rs :: impl ChannelMonitorImpl :: fn block_confirmed
+//@slice R15
+    if claimable_outpoints.is_empty() { $body:any } let (onchain_events_reaching_threshold_conf
+//@with
+    fn go_on_chain_for_an_expiring_htlc(&mut self, claimable_outpoints: &mut Vec<Pkg>, watch_outputs: &mut Vec<Outs>, logger: &LoggerStub) { if claimable_outpoints.is_empty() { $body } }
+//@ensures P C07,C08 a-new-block-makes-the-monitor-go-on-chain-once-exactly-when-an-htlc-is-about-to-expire-and-no-claims-were-generated-for-this-block-already-naming-that-htlc-and-not-for-a-manually-broadcast-channel-whose-funding-was-never-seen
+    ({ let goes = old(claimable_outpoints)@.len() == 0 && old(self).expiring is Some;
+       &&& !goes ==> final(self).calls@ == old(self).calls@ && final(claimable_outpoints)@ == old(claimable_outpoints)@ && final(watch_outputs)@ == old(watch_outputs)@
+       &&& goes ==> final(self).calls@ == old(self).calls@.push((Some(ClosureReason::HTLCsTimedOut { payment_hash: Some(old(self).expiring->Some_0) }), false))
+       &&& goes && (!old(self).is_manual_broadcast || old(self).funding_seen_onchain) ==> final(claimable_outpoints)@ == old(self).made@.0 && final(watch_outputs)@ == old(watch_outputs)@ + old(self).made@.1
+       &&& goes && old(self).is_manual_broadcast && !old(self).funding_seen_onchain ==> final(claimable_outpoints)@ == old(claimable_outpoints)@ && final(watch_outputs)@ == old(watch_outputs)@ }),
+//@mutant manually_broadcast_channel_goes_on_chain_before_its_funding_was_seen
+    if !self.is_manual_broadcast || self.funding_seen_onchain {
+//@with
+    if !self.is_manual_broadcast || !self.funding_seen_onchain {
+//@end
+}
 }
 }
 fn main() {}
